@@ -32,10 +32,12 @@ BUDGET_S = {"quick": 25, "thorough": 600}
 FLOORS = {
     "quick": {"evaluations": 20000, "distinct": 2000,
               "counters": {"conc_schedules": 1500, "conc_preempt_in_locked": 300,
-                           "seq_histories": 10000, "lin_checks": 1500}},
+                           "seq_histories": 10000, "lin_checks": 1500,
+                           "conc_writer_writer_programs_run": 40}},
     "thorough": {"evaluations": 200000, "distinct": 20000,
                  "counters": {"conc_schedules": 20000, "conc_preempt_in_locked": 3000,
-                              "seq_histories": 100000, "lin_checks": 20000}},
+                              "seq_histories": 100000, "lin_checks": 20000,
+                              "conc_writer_writer_programs_run": 100}},
 }
 
 KEYS = ["a", "b", "c"]
@@ -285,7 +287,7 @@ def writer_writer_programs():
         for x in w:
             for y1 in m:
                 for y2 in m:
-                    out.append({"cap": cap, "pre": pre, "threads": [[x], [y1, y2]]})
+                    out.append({"cap": cap, "pre": pre, "threads": [[x], [y1, y2]], "ww": True})
     return out
 
 
@@ -493,6 +495,8 @@ def run(ctx):
                                        bound, max_runs=max_runs):
             runs += 1
         ctx.count("conc_programs")
+        if prog.get("ww"):
+            ctx.count("conc_writer_writer_programs_run")
         if runs >= max_runs:
             ctx.count("conc_programs_schedule_capped")
         if pi < 2 and ctx.shard == 0:
